@@ -17,6 +17,32 @@ use crate::verif_h::{nd, vassert, vcover};
 pub(crate) const UNUSED: usize = NODE_UNUSED;
 pub(crate) const USED: usize = NODE_USED;
 pub(crate) const COOLDOWN: usize = NODE_COOLDOWN;
+/// "in cooldown, somebody is deciding whether it is over" (value 3; only exists after the F4 repair –
+/// written as a number so that the overlay compiles against trees with and without it)
+pub(crate) const COOLDOWN_CHECK: usize = 3;
+
+/// Guarantee row for `in_use`: ownership changes hands only by compare-exchange. The one plain store
+/// allowed is the verdict of a cooldown check, and only by the thread that took the check over by a
+/// CAS COOLDOWN -> COOLDOWN_CHECK right before (it stores UNUSED or COOLDOWN).
+pub(crate) fn ownership_writes_ok(w: &model::Watch) -> bool {
+    if w.count == 0 {
+        return true;
+    }
+    let is_cas = |k: u8| k == model::K_CAS || k == model::K_CASW;
+    if !is_cas(w.first_rec.kind) || w.count > 3 {
+        return false;
+    }
+    if is_cas(w.last_rec.kind) {
+        return true;
+    }
+    // a plain store: must be the verdict of a check this call took over
+    w.last_rec.kind == model::K_STORE
+        && (w.last_rec.a == NODE_UNUSED || w.last_rec.a == NODE_COOLDOWN)
+        && w.first_rec.a == NODE_COOLDOWN
+        && w.first_rec.b == COOLDOWN_CHECK
+        && w.first_rec.ok
+        && w.count == 2
+}
 pub(crate) const NONE: usize = Debt::NONE;
 pub(crate) const SLOT_CNT: usize = fast_h::SLOT_CNT;
 
@@ -206,10 +232,12 @@ pub(crate) fn list_len(bound: usize) -> usize {
 pub(crate) fn spin_nop() {}
 
 fn any_in_use() -> usize {
-    match nd::below(3) {
+    match nd::below(4) {
         0 => NODE_UNUSED,
         1 => NODE_USED,
-        _ => NODE_COOLDOWN,
+        2 => NODE_COOLDOWN,
+        // another thread is in the middle of a cooldown check of this node
+        _ => COOLDOWN_CHECK,
     }
 }
 
@@ -266,12 +294,10 @@ pub(crate) fn l1_node_get() {
 
     unsafe { crate::verif::set_hooks(None, None) };
     vassert!(r.in_use.raw().load(SeqCst) == NODE_USED, "node_get_result_is_marked_used");
-    // ownership changes hands only by compare-exchange (claim: UNUSED->USED, release: COOLDOWN->UNUSED)
+    // ownership changes hands only by compare-exchange (claim: UNUSED->USED, release: via a cooldown
+    // check taken over by CAS)
     let (iu0, iu1) = (model::w(w_iu0), model::w(w_iu1));
-    vassert!((iu0.count == 0 || ((iu0.first_rec.kind == model::K_CAS || iu0.first_rec.kind == model::K_CASW) && (iu0.last_rec.kind == model::K_CAS || iu0.last_rec.kind == model::K_CASW)))
-        && (iu1.count == 0 || ((iu1.first_rec.kind == model::K_CAS || iu1.first_rec.kind == model::K_CASW) && (iu1.last_rec.kind == model::K_CAS || iu1.last_rec.kind == model::K_CASW))),
-        "node_ownership_changes_only_by_compare_exchange");
-    vassert!(iu0.count <= 2 && iu1.count <= 2, "node_get_at_most_release_and_claim_per_node");
+    vassert!(ownership_writes_ok(&iu0) && ownership_writes_ok(&iu1), "node_ownership_changes_only_by_compare_exchange");
     // list order: head is nodes[len-1], then nodes[len-2] ...
     let mut expected: Option<usize> = None;
     let mut k = len;
@@ -356,12 +382,12 @@ pub(crate) fn l1_node_cooldown() {
     unsafe { crate::verif::set_hooks(None, None) };
     let post = view(n);
     let wiu = model::w(w_iu);
-    vassert!(wiu.count <= 1, "check_cooldown_writes_in_use_at_most_once");
-    if wiu.count == 1 {
-        // guarantee row of the table: another thread may have claimed the node in the meantime, so
-        // the release must be a compare-exchange that expects COOLDOWN, never a blind store
-        vassert!((wiu.first_rec.kind == model::K_CAS || wiu.first_rec.kind == model::K_CASW) && wiu.first_rec.a == NODE_COOLDOWN && wiu.first_rec.b == NODE_UNUSED,
-            "check_cooldown_releases_only_by_cas_from_cooldown");
+    // guarantee row of the table: another thread may have claimed the node in the meantime, so
+    // the cooldown is only ever ended through a compare-exchange that expects COOLDOWN, never by a
+    // blind store
+    vassert!(ownership_writes_ok(&wiu), "check_cooldown_releases_only_by_cas_from_cooldown");
+    if wiu.count >= 1 {
+        vassert!(wiu.first_rec.a == NODE_COOLDOWN, "check_cooldown_releases_only_by_cas_from_cooldown");
     }
     if st == NODE_COOLDOWN && w == 0 {
         vassert!(post.in_use == NODE_UNUSED, "check_cooldown_releases_quiet_node");
@@ -680,3 +706,123 @@ pub(crate) fn l1_local_node_helping_roundtrip() {
 
 
 
+
+// ------------------------------------------------------------------------------------------------
+// Node::check_cooldown under interference. The cooldown exists so that no writer that entered the
+// node under a previous owner (and may hold one of its generations) is still inside when the node
+// changes hands. `check_cooldown` justifies the release by reading `active_writers == 0` – but the
+// read and the release are two steps. Environment (other threads, before every step of the call;
+// up to four actions in a row, eight in total), restricted to what the guarantee table allows:
+//   RELEASE     COOLDOWN -> UNUSED (another thread's check_cooldown, only while no writer is inside)
+//   CLAIM       UNUSED -> USED
+//   RETIRE      USED -> COOLDOWN          (a new cooldown begins: epoch + 1)
+//   WRITER_IN / WRITER_OUT                (active_writers +- 1)
+// Obligation: a release performed by the call is justified by a zero it read during the cooldown
+// that is current at the release (`cooldown_release_justified_by_a_zero_seen_in_this_cooldown`).
+struct CdEnv {
+    on: bool,
+    in_use_addr: usize,
+    writers_addr: usize,
+    budget: u8,
+    epoch: usize,
+    zero_seen_epoch: usize, // epoch + 1 of the cooldown in which the call read active_writers == 0; 0 = never
+}
+static mut CDENV: CdEnv = CdEnv { on: false, in_use_addr: 0, writers_addr: 0, budget: 0, epoch: 0, zero_seen_epoch: 0 };
+static mut CD_NODE: *const Node = core::ptr::null();
+
+fn cd_action() {
+    let e = unsafe { &mut CDENV };
+    if e.budget == 0 {
+        return;
+    }
+    let n = unsafe { &*CD_NODE };
+    let st = n.in_use.raw().load(SeqCst);
+    let w = n.active_writers.raw().load(SeqCst);
+    match nd::below(6) {
+        1 => {
+            if st == NODE_COOLDOWN && w == 0 {
+                n.in_use.raw().store(NODE_UNUSED, SeqCst);
+                e.budget -= 1;
+            }
+        }
+        2 => {
+            if st == NODE_UNUSED {
+                n.in_use.raw().store(NODE_USED, SeqCst);
+                e.budget -= 1;
+            }
+        }
+        3 => {
+            if st == NODE_USED {
+                n.in_use.raw().store(NODE_COOLDOWN, SeqCst);
+                e.epoch += 1;
+                e.budget -= 1;
+            }
+        }
+        4 => {
+            if w < 2 {
+                n.active_writers.raw().store(w + 1, SeqCst);
+                e.budget -= 1;
+            }
+        }
+        5 => {
+            if w > 0 {
+                n.active_writers.raw().store(w - 1, SeqCst);
+                e.budget -= 1;
+            }
+        }
+        _ => {}
+    }
+}
+
+fn cd_before(ev: &crate::verif::Event) {
+    let e = unsafe { &mut CDENV };
+    if !e.on || (ev.addr != e.in_use_addr && ev.addr != e.writers_addr) {
+        return;
+    }
+    cd_action();
+    cd_action();
+    cd_action();
+    cd_action();
+}
+
+fn cd_after(ev: &crate::verif::Event) {
+    let e = unsafe { &mut CDENV };
+    if !e.on {
+        return;
+    }
+    if ev.addr == e.writers_addr && ev.op == crate::verif::Op::Load && ev.result == 0 {
+        let n = unsafe { &*CD_NODE };
+        let st = n.in_use.raw().load(SeqCst);
+        if st == NODE_COOLDOWN || st == COOLDOWN_CHECK {
+            e.zero_seen_epoch = e.epoch + 1;
+        }
+    }
+    let is_cas_ok = (ev.op == crate::verif::Op::Cas || ev.op == crate::verif::Op::CasWeak) && ev.ok;
+    let writes_unused = (is_cas_ok && ev.b == NODE_UNUSED) || ((ev.op == crate::verif::Op::Store || ev.op == crate::verif::Op::Swap) && ev.a == NODE_UNUSED);
+    if ev.addr == e.in_use_addr && writes_unused {
+        vassert!(e.zero_seen_epoch == e.epoch + 1, "cooldown_release_justified_by_a_zero_seen_in_this_cooldown");
+    }
+}
+
+// @harness name=rg_check_cooldown props=C11,C03 tier=quick flavour=nostd timeout=1800 fn=Node::check_cooldown
+#[cfg_attr(kani, kani::proof)]
+#[cfg_attr(kani, kani::stub(core::hint::spin_loop, spin_nop))]
+#[cfg_attr(kani, kani::unwind(12))]
+pub(crate) fn rg_check_cooldown() {
+    let n = fresh_node();
+    poke_in_use(n, any_in_use());
+    poke_active_writers(n, nd::below(3) as usize);
+    unsafe {
+        CD_NODE = n as *const Node;
+        CDENV = CdEnv { on: true, in_use_addr: in_use_addr(n), writers_addr: active_writers_addr(n), budget: 8, epoch: 0, zero_seen_epoch: 0 };
+        crate::verif::set_hooks(Some(cd_before), Some(cd_after));
+    }
+    n.check_cooldown();
+    unsafe {
+        crate::verif::set_hooks(None, None);
+        CDENV.on = false;
+    }
+    let st = n.in_use.raw().load(SeqCst);
+    vassert!(st == NODE_UNUSED || st == NODE_USED || st == NODE_COOLDOWN || st == COOLDOWN_CHECK, "in_use_stays_a_valid_state");
+    vcover!("rg_check_cooldown_end");
+}
